@@ -33,14 +33,53 @@ def analyse_build(ctx, F, crate, builder_adt, end_adt_path, end_kind, header_che
     fields = {f["i"]: f for f in builder_adt["fields"]}
     tag_fields = {i: f for i, f in fields.items() if f["name"] not in non_tag_fields}
     pushes = []
+    push_vecs = []
     for bb, t in b.calls():
         if (M.callee_path(t) or "").endswith("Vec::<T, A>::push"):
             v = N(A.tb.operand(t["args"][1], (bb, len(b.stmts(bb)))))
             pushes.append((bb, v))
+            push_vecs.append(A.tb.operand(t["args"][0], (bb, len(b.stmts(bb)))))
     per_field = {}
     end_pushes = []
     other = []
     loops = b.back_edges()
+    # ---- slot appended as `vec.extend(self.slot.iter().map(|tag| tag.as_bytes().as_ref()))`: Option::iter yields the payload
+    # iff the slot is set, slice iteration yields the elements in order, Vec::extend appends in iteration order (std contracts)
+    extends = {}
+    for bb, t in b.calls():
+        p = M.callee_path(t) or ""
+        if not (p.endswith("::extend") and ("Extend<" in p or "alloc::vec::Vec" in p)):
+            continue
+        at = (bb, len(b.stmts(bb)))
+        vecarg = A.tb.operand(t["args"][0], at)
+        itv = N(A.tb.operand(t["args"][1], at))
+        fi = None
+        shape = False
+        if itv[0] == "call" and ("Iterator>::map" in str(itv[1]) or cn(itv[1]).endswith("Iterator::map")) and len(itv[2]) == 2:
+            src_it, clo = itv[2]
+            base = src_it
+            kind_ = None
+            if base[0] == "call" and cn(base[1]) == "core::option::Option::iter" and len(base[2]) == 1:
+                kind_, base = "Option", base[2][0]
+            elif base[0] == "call" and cn(base[1]) == "core::slice::iter" and len(base[2]) == 1:
+                kind_, base = "Vec", base[2][0]
+                if base[0] == "call" and len(base[2]) == 1 and "alloc::vec::Vec<" in str(base[1]) and str(base[1]).endswith("Deref>::deref"):
+                    base = base[2][0]
+            if kind_ and base[0] == "ref" and base[1][0] == "fld" and base[1][1] == arg(1):
+                fi = base[1][2]
+                from .. import select as SEL
+                cf = SEL.closure_fn(F, clo, inst)
+                if cf is not None:
+                    rt_c, _ = an.of(F, cf).ret()
+                    if rt_c is not None:
+                        cv = N(rt_c)
+                        shape = cv[0] == "fld" and cv[2] == 0 and cv[1][0] == "unwrap" and cv[1][1][0] == "call" and "BytesRef" in str(cv[1][1][1]) and "try_from" in str(cv[1][1][1]) \
+                            and cv[1][1][2][0][0] == "rawslice" and cv[1][1][2][0][2][0] == "sizeofval" and any(x == arg(2) or x == ("deref", arg(2)) for x in subterms(cv[1][1][2][0][1]))
+                extends.setdefault(fi, []).append((bb, kind_, shape, vecarg))
+        if fi is None:
+            other.append((bb, itv))
+        else:
+            push_vecs.append(vecarg)
     for (bb, v) in pushes:
         subs = subterms(v)
         ks = {s[2] for s in subs if len(s) == 3 and s[0] == "fld" and s[1] == arg(1)}
@@ -62,7 +101,15 @@ def analyse_build(ctx, F, crate, builder_adt, end_adt_path, end_kind, header_che
         ok = len(ps) == 1 and ps[0][2]
         why = "%d push sites" % len(ps)
         how = ""
-        if ok:
+        if not ps and len(extends.get(i, [])) == 1:
+            ebb, kind_, shape, _v = extends[i][0]
+            fty = F.ty(f["ty"]) or {}
+            uncond = all(b.dominates(ebb, r) for r in b.return_blocks) and not any(ebb in b.loop_blocks(h, t) for (t, h) in loops)
+            ok = shape and uncond and fty.get("adt_name") == kind_
+            how = "extend(self.%s.iter().map(as_bytes view)), executed exactly once" % f["name"]
+            why = "closure yields the as_bytes view=%s unconditional=%s slot kind %s/%s" % (shape, uncond, fty.get("adt_name"), kind_)
+            ps = [(ebb, None, shape)]
+        elif ok:
             bb, v, _ = ps[0]
             fty = F.ty(f["ty"]) or {}
             facts = [N(x) for x in A.g.facts_at(bb)]
@@ -71,7 +118,20 @@ def analyse_build(ctx, F, crate, builder_adt, end_adt_path, end_kind, header_che
             if is_vec:
                 # forward loop over &self.field: item = payload of Iterator::next(&mut into_iter(&self.field)), push inside that loop, once per iteration
                 nexts = [s for s in subterms(v) if len(s) >= 3 and s[0] == "call" and "core::slice::iter::Iter<" in str(s[1]) and "Iterator>::next" in str(s[1])]
-                it_ok = bool(nexts) and all(n_[2][0][0] == "ref" and n_[2][0][1][0] == "call" and "IntoIterator>::into_iter" in str(n_[2][0][1][1]) and n_[2][0][1][2] == (src,) for n_ in nexts)
+                def forward_iter_over(t):
+                    """forward iteration over the whole Vec slot: into_iter / iter of &self.slot or of its slice view"""
+                    t = t[1] if t[0] == "ref" else t
+                    seen_iter = False
+                    for _ in range(6):
+                        if t[0] == "call" and len(t[2]) == 1 and ("IntoIterator" in str(t[1]) and "into_iter" in str(t[1]) or cn(t[1]) == "core::slice::iter"):
+                            seen_iter = True
+                            t = t[2][0]
+                        elif t[0] == "call" and len(t[2]) == 1 and (cn(t[1]) in ("alloc::vec::Vec::as_slice",) or "alloc::vec::Vec<" in str(t[1]) and str(t[1]).endswith(("Deref>::deref", "AsRef<[T]>>::as_ref"))):
+                            t = t[2][0]
+                        else:
+                            break
+                    return seen_iter and t == src
+                it_ok = bool(nexts) and all(forward_iter_over(n_[2][0]) for n_ in nexts)
                 inloop = [(t, h) for (t, h) in loops if bb in b.loop_blocks(h, t)]
                 once = len(inloop) == 1 and b.dominates(bb, inloop[0][0])
                 guard = any(x[0] == "cmp" and x[1] == "Eq" and x[2][0] == "discr" and x[2][1] in nexts and x[3] == ("c", 1) for x in facts)
@@ -105,7 +165,7 @@ def analyse_build(ctx, F, crate, builder_adt, end_adt_path, end_kind, header_che
         inloop = any(ebb in b.loop_blocks(h, t) for (t, h) in loops)
         # all other pushes come before: end push is not dominated by... every other push block must not be reachable after ebb
         reach_after = reachable_from(b, ebb)
-        later = [bb for (bb, _) in pushes if bb != ebb and bb in reach_after]
+        later = [bb for (bb, _) in pushes if bb != ebb and bb in reach_after] + [x[0] for v in extends.values() for x in v if x[0] in reach_after]
         ok_end = dom and not later and not inloop
         why = "dominates return=%s pushes reachable after it=%s in loop=%s" % (dom, later, inloop)
     ctx.check(ok_end, "BUILDER", "end-tag", "the end tag (%s) is pushed exactly once, on every path to the return, and no push can follow it" % end_kind, A.site(),
@@ -117,6 +177,12 @@ def analyse_build(ctx, F, crate, builder_adt, end_adt_path, end_kind, header_che
     if n is not None and n[0] == "call" and cn(n[1]) == "multiboot2_common::boxed::new_boxed":
         hdr, sl = n[2]
         vec_ok = sl[0] == "call" and cn(sl[1]) in ("alloc::vec::Vec::as_slice",) and sl[2][0][0] == "ref" and sl[2][0][1][0] == "opq"
+        if not vec_ok and sl[0] == "call" and cn(sl[1]) in ("alloc::vec::Vec::as_slice",) and push_vecs:
+            # the vector lives inside a wrapper (newtype): it must be the very vector every push went to - compared as raw terms,
+            # which carry the creation site of `Vec::new()`
+            raw_ret = A.ret()[0]
+            rs = [x for x in subterms(raw_ret) if len(x) >= 3 and x[0] == "call" and cn(x[1]) == "alloc::vec::Vec::as_slice"]
+            vec_ok = len(rs) == 1 and all(pv == rs[0][2][0] or (pv[0] == "ref" and rs[0][2][0][0] == "ref" and pv[1] == rs[0][2][0][1]) for pv in push_vecs)
         ok_nb = vec_ok and header_check(hdr)
     ctx.check(ok_nb, "BUILDER", "new_boxed", "build() returns new_boxed(fresh header, the pushed slices in push order)", A.site(), how=G.show(rt)[:160], why=G.show(rt)[:300])
     return dict(inst=inst, pushes=pushes, per_field=per_field)
